@@ -338,6 +338,9 @@ class Background2D:
                 raise ValueError(f'{name} must be a 2D array.')
             if shape and array.shape != self._data.shape:
                 raise ValueError(f'data and {name} must have the same shape.')
+            if name in ('mask', 'coverage_mask') and array.dtype != bool:
+                # an integer array would be used as a fancy index
+                array = array.astype(bool)
         return array
 
     def _apply_units(self, data):
